@@ -50,7 +50,7 @@ Definition dec_cfg (s : sx) : option hc_cfg :=
   | _ => None
   end.
 
-(* [cfg table nodes edges] -> [nodes edges broke ambig trace total(seeded start) total(result)]
+(* [cfg table nodes edges] -> [nodes edges broke tie trace total(seeded start) total(result)]
    errors: 1 = start_dag nodes differ from the variables, 2 = fixed edges create a cycle *)
 Definition run_c11_hc (s : sx) : sx :=
   match s with
@@ -62,7 +62,7 @@ Definition run_c11_hc (s : sx) : sx :=
           | HcErrCycle => sx_err 2
           | HcOk r =>
               sx_ok (SL [ of_list of_nat (nodes (r_g r)); of_list of_edge (edges_nx (r_g r));
-                          of_bool (r_broke r); of_bool (r_ambig r); of_list of_opd (r_trace r);
+                          of_bool (r_broke r); of_bool (r_tie r); of_list of_opd (r_trace r);
                           of_Qc (total (tab_score t) (seed c g)); of_Qc (total (tab_score t) (r_g r)) ])
           end
       | _, _, _ => bad_request
